@@ -8,10 +8,25 @@ Open Scope list_scope.
 (* The lists the overlap assertion receives from the interfaces (`Interfaces::emit_messages_call`, translated on every run:
    GenImpMacro.bridge_fns, Facts/BridgeRefine.v): for ANY list of attached interfaces, one list per interface, in order, list i
    being `&module_i::sv::<entry point name of the kind>_messages()`. *)
-Require Import SV.Model.GenImpMacro SV.Facts.MacroRefine SV.Facts.BridgeRefine.
+Require Import SV.Model.GenImpBridge SV.Facts.MacroRefine SV.Facts.BridgeRefine.
 
-Theorem c05_translated_overlap_lists_of_interfaces : forall kv (l : list (value * value)),
+Theorem c05_translated_overlap_lists_of_interfaces : forall kv (l : list iface),
   calls BR 2 "Interfaces::emit_messages_call" [ifaces_v l; kv] (CVal (VArr (map (msgs_call_spec kv) l))).
 Proof. exact translated_messages_call. Qed.
 
+(* ... and the assertion of the contract-level message is given ALL of them followed by the contract's own list - no part is
+   left out, whatever the number of interfaces - with the matching count *)
+Theorem c05_translated_overlap_assertion_sees_every_part : forall params w contract k err custom (l : list iface), In k six_kinds ->
+  exists r,
+    calls BR 3 "GlueMessage::emit" [glue_self params w contract k err custom l] (CVal r) /\
+    lookup "messages_call" (holes_of r) =
+      Some (VArr (map (msgs_call_spec (kind_v k)) l ++ [quote_v "&# messages_fn_name ()" [("messages_fn_name", own_fn k contract)]])) /\
+    lookup "variants_cnt" (holes_of r) = Some (VNat (S (length l))).
+Proof.
+  intros params w contract k err custom l Hk.
+  destruct (translated_glue_message params w contract k err custom l Hk) as (r & H1 & H2 & H3 & _).
+  exists r. split; [exact H1|]. split; [exact H2 | exact H3].
+Qed.
+
 Print Assumptions c05_translated_overlap_lists_of_interfaces.
+Print Assumptions c05_translated_overlap_assertion_sees_every_part.
